@@ -140,7 +140,10 @@ func shortName(s string) string {
 		}
 		if j > i {
 			tok := s[i:j]
-			if k := strings.LastIndex(tok, "/"); k >= 0 {
+			if k := strings.Index(tok, "github.com/segmentio/asm/"); k >= 0 {
+				// the dependency has packages named like the repository's own
+				tok = "asm/" + tok[k+len("github.com/segmentio/asm/"):]
+			} else if k := strings.LastIndex(tok, "/"); k >= 0 {
 				tok = tok[k+1:]
 			}
 			sb.WriteString(tok)
@@ -604,6 +607,8 @@ func (f *Frame) run(args []Val, free []Val, mem *Mem, gh *Ghost, reach *Term, st
 		if li := f.loopOf[n.blk]; li != nil {
 			if mode, _ := li.mode(); mode == lmCut {
 				f.cutLoop(n, li, st)
+			} else if li.spec != nil && len(li.spec.Inv) > 0 {
+				f.iterInvariant(n, li, st)
 			}
 		}
 		f.execBlock(n, st)
@@ -818,6 +823,21 @@ func (f *Frame) cutLoop(n *xnode, li *loopInfo, st *execState) {
 			v := e.evalInt(sc, li.spec.Decreases, li.spec.DecreasesText)
 			f.decHead[li] = v
 		}
+	}
+}
+
+// iterInvariant: in an unrolled loop the declared invariants are asserted and
+// then assumed at every visit of the header (each iteration copy), which cuts
+// the reasoning into per-iteration steps without abstracting anything.
+func (f *Frame) iterInvariant(n *xnode, li *loopInfo, st *execState) {
+	e := f.e
+	f.curBlock = n.blk
+	sc := f.scopeAt(st, nil)
+	for _, inv := range li.spec.Inv {
+		sc.goal = true
+		g := e.evalBool(sc, inv.Expr, inv.Text)
+		f.oblige(st, "invariant", fmt.Sprintf("L%d.%s.iter%d", li.ordinal, inv.Label, n.cnt[li.ordinal]), st.reach, g, li.header.Instrs[0].Pos(), "invariant at iteration: "+inv.Text)
+		e.assume(e.tb.Implies(st.reach, g))
 	}
 }
 
